@@ -143,7 +143,7 @@ RECURSIVE WriteHexRev(_)
 WriteHexRev(n) == IF n < 16 THEN <<n>> ELSE <<n % 16>> \o WriteHexRev(n \div 16)
 WriteHex(n) == Reverse(WriteHexRev(n))
 
-HexReadLemma == \A s \in SeqsUpTo(HSym, MaxHexChars + 2) :
+HexReadLemma == \A len \in 0..(MaxHexChars + 2) : \A s \in [1..len -> HSym] :
   LET r == ReadHex(s) ref == RefReadHex(s, MaxHexChars) IN
     /\ r.ok = ref.ok /\ r.n = ref.n
     /\ r.ok => r.v = HexValue(SubSeq(s, 1, r.n)) /\ r.v >= 0 /\ r.v <= MaxInt
